@@ -315,6 +315,9 @@ func init() {
 			if !c.Mine(idx) {
 				continue
 			}
+			if sr.Bail() {
+				break
+			}
 			rg := eng.NewRng(c.CaseSeed(idx))
 			cs := genC14(rg, c.Thorough())
 			c.Progress(idx, cs)
